@@ -218,6 +218,13 @@ theorem lock_free_reads_atomic :
     (`earlyUnlocks`, regenerated from the source, is empty) — so "lexically inside the scope" above means "under the lock". -/
 theorem no_early_unlock : Tromp.Gen.earlyUnlocks = [] := by decide
 
+/-- **one mutex**: every definition of `get_lock()` (the standard one and the `TROMPELOEIL_CUSTOM_RECURSIVE_MUTEX` one) declares its
+    mutex as a function-local `static` and returns a lock taken on that very object (`lockSources`, regenerated from the source) —
+    so any two lock scopes of the table exclude one another, which is what `critical_steps_locked` and the linearisation
+    argument rest on; and there is such a definition. -/
+theorem one_global_mutex :
+    Tromp.Gen.lockSources.all (fun r => r.2.1 && r.2.2) = true ∧ Tromp.Gen.lockSources ≠ [] := by decide
+
 /-- … and there are such queries (the destruction requirement's), so the statement is not about an empty table. -/
 theorem lock_free_reads_nonempty :
     Tromp.Gen.lockFreeReads.map (fun r => (r.1, r.2.2.1)) =
